@@ -625,6 +625,163 @@ SizeAgrees ==
 
 ---------------------------------------------------------------------------
 (***************************************************************************)
+(* Decoder of the definition: the mirror of the walk above as a recursive   *)
+(* operator.  Dec(obj, ctx, body) reads `body` the way the definition says - *)
+(* widths from the types, enumerators and flag bits from the bytes read,    *)
+(* array counts from count fields, endless arrays and the optional tail from *)
+(* the remaining length - and returns the field events it consumed, or the  *)
+(* reason it failed.  Used for: UniquelyDecodable (every encoding the walker *)
+(* produces decodes to the same field events), validation of byte strings   *)
+(* the model did NOT choose (corpus test vectors, documentation examples).  *)
+(***************************************************************************)
+DeclSet(d, w) == {SubSeq(d.enums[j].le, 1, w) : j \in 1..Len(d.enums)}
+DSt(pos, evs) == [ok |-> TRUE, why |-> "", pos |-> pos, ev |-> evs]
+DFail(st, why) == [st EXCEPT !.ok = FALSE, !.why = why]
+DEv(n, at, len, k, tid) == [n |-> n, at |-> at, len |-> len, k |-> k, tid |-> tid]
+Bytes(inp, pos, n) == SubSeq(inp, pos + 1, pos + n)
+
+(* value of up to 4 little-endian bytes as a number, INF if it does not fit 31 bits *)
+ValLE(bs) ==
+    IF Len(bs) > 4 /\ ~IsZero(SubSeq(bs, 5, Len(bs))) THEN INF
+    ELSE IF Len(bs) >= 4 /\ bs[4] >= 128 THEN INF
+    ELSE (IF Len(bs) >= 1 THEN bs[1] ELSE 0) + (IF Len(bs) >= 2 THEN bs[2] * 256 ELSE 0)
+         + (IF Len(bs) >= 3 THEN bs[3] * 65536 ELSE 0) + (IF Len(bs) >= 4 THEN bs[4] * 16777216 ELSE 0)
+
+DTake(st, inp, n, name, k, tid) ==
+    IF ~st.ok THEN st
+    ELSE IF n >= INF \/ st.pos + n > Len(inp) THEN DFail(st, "end of input inside " \o name)
+    ELSE [st EXCEPT !.pos = @ + n, !.ev = Append(@, DEv(name, st.pos, n, k, tid))]
+
+PopCount(bs) == Cardinality(BitsOfBytes(bs))
+
+(* first index >= pos + 1 holding a zero byte, 0 if none *)
+FirstZero(inp, pos) ==
+    LET zs == {j \in (pos + 1)..Len(inp) : inp[j] = 0}
+    IN IF zs = {} THEN 0 ELSE CHOOSE j \in zs : \A x \in zs : j <= x
+
+(* length in bytes of one value of a builtin type that does not need the corpus *)
+SelfDelimited(ty, inp, pos, c) ==
+    CASE ty \in {"u8", "i8", "Bool", "Level"} -> 1
+      [] ty \in {"u16", "i16", "Spell16", "Level16"} -> 2
+      [] ty \in {"u32", "i32", "Gold", "Seconds", "Milliseconds", "Spell", "Item", "f32", "Population",
+                 "Bool32", "Level32", "DateTime", "IpAddress"} -> 4
+      [] ty \in {"u64", "i64", "Guid"} -> 8
+      [] ty = "u48" -> 6
+      [] ty = "PackedGuid" -> IF pos + 1 > Len(inp) THEN INF ELSE 1 + PopCount(<<inp[pos + 1]>>)
+      [] ty = "CString" -> LET z == FirstZero(inp, pos) IN IF z = 0 THEN INF ELSE z - pos
+      [] ty = "SizedCString" -> IF pos + 4 > Len(inp) THEN INF
+                                ELSE LET l == ValLE(Bytes(inp, pos, 4)) IN IF l = 0 THEN INF ELSE Plus(4, l)
+      [] ty = "String" -> IF pos + 1 > Len(inp) THEN INF ELSE 1 + inp[pos + 1]
+      [] ty = "NamedGuid" ->
+            IF pos + 8 > Len(inp) THEN INF
+            ELSE IF IsZero(Bytes(inp, pos, 8)) THEN 8
+            ELSE LET z == FirstZero(inp, pos + 8) IN IF z = 0 THEN INF ELSE z - pos
+      [] ty = "VariableItemRandomProperty" ->
+            IF pos + 4 > Len(inp) THEN INF ELSE IF IsZero(Bytes(inp, pos, 4)) THEN 4 ELSE 8
+      [] ty = "MonsterMoveSplines" ->
+            IF pos + 4 > Len(inp) THEN INF
+            ELSE LET n == ValLE(Bytes(inp, pos, 4)) IN
+                 IF n = 0 THEN 4 ELSE Plus(4 + 12, Times(n - 1, 4))
+      [] ty = "EnchantMask" -> IF pos + 2 > Len(inp) THEN INF ELSE 2 + 2 * PopCount(Bytes(inp, pos, 2))
+      [] ty = "CacheMask" -> IF pos + 4 > Len(inp) THEN INF ELSE 4 + 4 * PopCount(Bytes(inp, pos, 4))
+      [] ty = "AuraMask" -> IF c.exp # "vanilla" \/ pos + 4 > Len(inp) THEN INF
+                             ELSE 4 + 2 * PopCount(Bytes(inp, pos, 4))
+      [] ty = "UpdateMask" ->
+            IF pos + 1 > Len(inp) THEN INF
+            ELSE LET nb == inp[pos + 1] IN
+                 IF pos + 1 + 4 * nb > Len(inp) THEN INF
+                 ELSE 1 + 4 * nb + 4 * PopCount(Bytes(inp, pos + 1, 4 * nb))
+      [] OTHER -> INF
+
+RECURSIVE DecFrom(_, _, _, _, _, _), DecValue(_, _, _, _, _, _), DecElems(_, _, _, _, _, _), DecUntilEnd(_, _, _, _, _),
+          DecSentinel(_, _, _, _)
+
+(* one value of type name ty (builtin or user) at st.pos; nm is the event name *)
+DecValue(ty, upw, nm, st, inp, c) ==
+    IF ~st.ok THEN st
+    ELSE IF Resolvable(ty, c)
+    THEN LET tid == Resolve(ty, c)
+             o == Objs[tid]
+         IN IF o.kind \in {"enum", "flag"}
+            THEN LET w == IF upw > 0 THEN upw ELSE o.w
+                     s2 == DTake(st, inp, w, nm, o.kind, tid)
+                 IN IF ~s2.ok THEN s2
+                    ELSE IF o.kind = "enum" /\ Bytes(inp, st.pos, w) \notin DeclSet(o, w)
+                    THEN DFail(s2, "undeclared enumerator in " \o nm)
+                    ELSE s2
+            ELSE IF o.unimpl THEN DFail(st, "unimplemented struct " \o o.name)
+            ELSE DecFrom(o.blk, 1, <<>>, st, inp, c)
+    ELSE IF ty = "AuraMask" /\ c.exp # "vanilla"
+    THEN LET s2 == DTake(st, inp, 8, nm, ty, 0) IN
+         IF ~s2.ok THEN s2 ELSE DecElems("Aura", PopCount(Bytes(inp, st.pos, 8)), nm, s2, inp, c)
+    ELSE IF ty = "InspectTalentGearMask"
+    THEN LET s2 == DTake(st, inp, 4, nm, ty, 0) IN
+         IF ~s2.ok THEN s2 ELSE DecElems("InspectTalentGear", PopCount(Bytes(inp, st.pos, 4)), nm, s2, inp, c)
+    ELSE IF ty \in {"AchievementDoneArray", "AchievementInProgressArray"}
+    THEN DecSentinel(IF ty = "AchievementDoneArray" THEN "AchievementDone" ELSE "AchievementInProgress", st, inp, c)
+    ELSE DTake(st, inp, SelfDelimited(ty, inp, st.pos, c), nm, ty, 0)
+
+DecElems(ty, n, nm, st, inp, c) ==
+    IF ~st.ok \/ n = 0 THEN st
+    ELSE IF n >= INF THEN DFail(st, "count too large for " \o nm)
+    ELSE DecElems(ty, n - 1, nm, DecValue(ty, 0, "[" \o ty \o "]", st, inp, c), inp, c)
+
+DecUntilEnd(ty, nm, st, inp, c) ==
+    IF ~st.ok \/ st.pos >= Len(inp) THEN st
+    ELSE LET s2 == DecValue(ty, 0, "[" \o ty \o "]", st, inp, c) IN
+         IF s2.ok /\ s2.pos = st.pos THEN DFail(s2, "empty element in endless array " \o nm)
+         ELSE DecUntilEnd(ty, nm, s2, inp, c)
+
+DecSentinel(ty, st, inp, c) ==
+    IF ~st.ok THEN st
+    ELSE IF st.pos + 4 > Len(inp) THEN DFail(st, "end of input before sentinel")
+    ELSE IF Bytes(inp, st.pos, 4) = <<255, 255, 255, 255>> THEN DTake(st, inp, 4, "sentinel", "sentinel", 0)
+    ELSE DecSentinel(ty, DecValue(ty, 0, "[" \o ty \o "]", st, inp, c), inp, c)
+
+DecFrom(b, pc, env, st, inp, c) ==
+    LET ins == Blks[b].ins IN
+    IF ~st.ok \/ pc > Len(ins) THEN st
+    ELSE LET i == ins[pc]
+             rest(e, s2) == DecFrom(b, pc + 1, e, s2, inp, c)
+         IN CASE i.op = "decl" ->
+                 IF i.arr # "none"
+                 THEN IF i.comp THEN DFail(st, "compressed array " \o i.name \o " (not inflatable in the model)")
+                      ELSE LET s2 == CASE i.arr = "fixed" -> DecElems(i.ty, i.n, i.name, st, inp, c)
+                                       [] i.arr = "var" -> DecElems(i.ty, env[i.cf].n, i.name, st, inp, c)
+                                       [] i.arr = "endless" -> DecUntilEnd(i.ty, i.name, st, inp, c)
+                           IN rest(env, s2)
+                 ELSE IF i.builtin /\ (i.cnt \/ i.hasc)
+                 THEN LET w == IntWidth(i.ty)
+                          s2 == DTake(st, inp, w, i.name, IF i.selfsize THEN "size" ELSE IF i.hasc THEN "const" ELSE "count", 0)
+                          e2 == IF i.cnt /\ s2.ok THEN (i.name :> Info(0, "", {}, ValLE(Bytes(inp, st.pos, w)))) @@ env ELSE env
+                      IN rest(e2, s2)
+                 ELSE LET s2 == DecValue(i.ty, i.upw, i.name, st, inp, c) IN
+                      IF s2.ok /\ i.ctl /\ Resolvable(i.ty, c)
+                      THEN LET tid == Resolve(i.ty, c)
+                               o == Objs[tid]
+                               w == IF i.upw > 0 THEN i.upw ELSE o.w
+                               bs == Bytes(inp, st.pos, w)
+                               info == IF o.kind = "enum"
+                                       THEN Info(tid, o.enums[CHOOSE j \in 1..Len(o.enums) : SubSeq(o.enums[j].le, 1, w) = bs].n, {}, 0)
+                                       ELSE Info(tid, "", BitsOfBytes(bs), 0)
+                           IN rest((i.name :> info) @@ env, s2)
+                      ELSE rest(env, s2)
+              [] i.op = "if" ->
+                 LET a == FirstArm(i, env) IN
+                 IF a > 0 THEN rest(env, DecFrom(i.arms[a].blk, 1, env, st, inp, c))
+                 ELSE IF i.els > 0 THEN rest(env, DecFrom(i.els, 1, env, st, inp, c))
+                 ELSE rest(env, st)
+              [] i.op = "opt" ->
+                 IF st.pos < Len(inp) THEN rest(env, DecFrom(i.blk, 1, env, st, inp, c)) ELSE rest(env, st)
+              [] i.op = "unimpl" -> DFail(st, "unimplemented member")
+
+(* decode a whole body; accepted iff everything was consumed *)
+Dec(o, c, body) ==
+    LET r == DecFrom(o.blk, 1, <<>>, DSt(0, <<>>), body, c) IN
+    IF r.ok /\ r.pos # Len(body) THEN DFail(r, "bytes left over") ELSE r
+
+---------------------------------------------------------------------------
+(***************************************************************************)
 (* Fault families.  A fault is a canonical encoding altered at ONE chosen   *)
 (* place.  C04 (specified faults - the decoder of the definition must fail  *)
 (* in a specified way): an enum-typed field carrying, at its full wire      *)
@@ -641,7 +798,6 @@ RECURSIVE IncLE(_)
 IncLE(b) == IF b = <<>> THEN <<>>
             ELSE IF b[1] < 255 THEN <<b[1] + 1>> \o Tail(b) ELSE <<0>> \o IncLE(Tail(b))
 
-DeclSet(d, w) == {SubSeq(d.enums[j].le, 1, w) : j \in 1..Len(d.enums)}
 
 BadEnumValues(d, w) ==
     LET D == DeclSet(d, w)
@@ -728,6 +884,15 @@ OpFaults == UNION {UNION {{OpFault(c, d, n) : n \in UndefinedOps(c, d)} : d \in 
 
 ASSUME (FaultMode = "c04" /\ Shard = 0) =>
          \A f \in OpFaults : PrintT("REPLAY " \o ToJson(f))
+
+(* every encoding the walker produces is read back by the definition's own decoding rule: all of *)
+(* it is consumed and every field boundary of the encoder is a field boundary of the decoder     *)
+UniquelyDecodable ==
+    (phase = "done" /\ PlainBody /\ regions = <<>>) =>
+        LET r == Dec(RootObj, root.ctx, Body)
+            starts == {r.ev[j].at : j \in 1..Len(r.ev)} \cup {Len(Body)}
+        IN /\ r.ok
+           /\ \A j \in 1..Len(ev) : ev[j].at \in starts
 
 EmitRecord ==
     /\ (phase = "done") => PrintT("REPLAY " \o ToJson(Record))
